@@ -182,14 +182,14 @@ PROPS = {
     ),
     "C17": dict(
         title="Hash functions match their standards for every input and call pattern",
-        verus=[("sha2_update", None, "quick")],
+        verus=[("sha2_update", None, "quick"), ("sha2_digest", 100, "quick")],
         kani=[],
         cases=["hash_chunked", "hash_script", "shake_chunked", "shake_script", "blake2s_chunked", "blake2s_script", "blake2s_keyed_chunked", "blake2s_keyed_reset"],
         explanation="SHA-2 family: update() of both block sizes is proved (Verus, loop invariant, any number of calls, any chunk lengths) to extend the absorbed byte string: view(final) == view(old) ++ src, where view relates (h, buf, ctr) to the message through an abstract compression function. Padding/finalisation (to_be_bytes has no Verus spec in this toolchain), the compression functions, SHA-3 and BLAKE2s are covered only by the labelled stand-in sweep against from-the-standard reference implementations.",
         assumptions=["process() (the compression function) is used through an assumed contract: final.h == compress(old.h, old.buf), buf and ctr unchanged",
                      "usize is 64 bits (global size_of usize == 8)"],
-        level_text="SHA-224/256/384/512 streaming: update() proved by Verus to be concatenation on the abstract message view for every chunking. Padding, compression functions, SHA-3, SHAKE, BLAKE2s: stand-in only (reference implementations written from the standards).",
-        level_note="Compression function abstract; finalisation not under contract.",
+        level_text="SHA-224/256/384/512 streaming: update() proved by Verus to be concatenation on the abstract message view for every chunking; digest_to() (finalisation, both block sizes) proved to run the compression chain over msg || 0x80 || 0^k || BE(8*len) with k minimal (FIPS 180-4 5.1), one or two final blocks, and to write the state words big-endian (including the 4-byte half word of SHA-512/224). The  compression functions, SHA-3, SHAKE, BLAKE2s: stand-in only (reference implementations written from the standards).",
+        level_note="Compression function abstract (process() is an assumed contract). to_be_bytes is reached through the documented `lebytes` renaming to declared twins. The macro-generated public wrappers (Sha256::finalize etc.) are not under contract. Message lengths are limited to < 2^61 (2^125) bytes by the contract, as in FIPS 180-4.",
     ),
     "C19": dict(
         title="Decoding and verification are total: no panic, hang or out-of-bounds",
